@@ -39,6 +39,7 @@ struct RActor {
     hobs: HandleObs,
     mem_cast: Option<Membership<M>>,
     mem_call: Option<Membership<Call<M, u64>>>,
+    #[allow(dead_code)]
     by_supervisor: bool,
 }
 
